@@ -24,7 +24,13 @@ Fixed == << [pages |-> << << [font |-> "roboto", size |-> 12, text |-> <<916, 87
              cfg |-> Cfgs[1], k |-> 9001],
             [pages |-> << << [font |-> "sourcesans", size |-> 12, text |-> <<45, 8208, 65, 916, 8710>>], [font |-> "sourcesans", size |-> 10, text |-> <<255, 256, 33, 34, 35, 256, 255>>] >> >>,
              cfg |-> Cfgs[2], k |-> 9002],
-            [pages |-> << << [font |-> "roboto", size |-> 12, text |-> <<255, 256, 33, 34, 35, 256, 255>>] >> >>, cfg |-> Cfgs[4], k |-> 9003] >>
+            [pages |-> << << [font |-> "roboto", size |-> 12, text |-> <<255, 256, 33, 34, 35, 256, 255>>] >> >>, cfg |-> Cfgs[4], k |-> 9003],
+            \* more than a hundred distinct code points none of which follows another (every ToUnicode entry a bfchar of its own, a second
+            \* block of entries), in three lines of one font
+            [pages |-> << << [font |-> "roboto", size |-> 9, text |-> [i \in 1..47 |-> 31 + 2 * i]], [font |-> "roboto", size |-> 9, text |-> [i \in 1..31 |-> 191 + 2 * i]],
+                             [font |-> "roboto", size |-> 9, text |-> [i \in 1..9 |-> 911 + 2 * i] \o [i \in 1..32 |-> 1039 + 2 * i]] >> >>, cfg |-> Cfgs[1], k |-> 9004],
+            \* base letters followed by combining marks: glyphs whose advance width is zero
+            [pages |-> << << [font |-> "roboto", size |-> 12, text |-> <<101, 769, 97, 776, 110, 771, 115, 780, 99, 807>>] >> >>, cfg |-> Cfgs[2], k |-> 9005] >>
 VARIABLE done
 Init == done = FALSE
 Next == /\ ~done
